@@ -191,3 +191,80 @@ Proof.
   - intros t Ht. apply in_map_iff in Ht. destruct Ht as (bt & <- & Hbt).
     unfold abstract_task. cbn [t_func]. rewrite Hoc. apply (Hf bt _ Hbt).
 Qed.
+
+(* ------------------------------------------------------------------ type and length of the function's argument *)
+Lemma zlist_eqb_eq a : forall b, zlist_eqb a b = true <-> a = b.
+Proof.
+  induction a as [|x a IH]; intros [|y b]; cbn [zlist_eqb]; try (split; [discriminate|discriminate]).
+  - split; reflexivity.
+  - rewrite andb_true_iff, Z.eqb_eq, IH. split.
+    + intros (-> & ->). reflexivity.
+    + intros H. injection H as -> ->. split; reflexivity.
+Qed.
+
+(* the observation agrees with the model iff the function was called with exactly the model's LIST (a bare
+   content never agrees, whatever it is), resp. was not called when the model says so *)
+Lemma arg_code_zero m o : arg_code m o = 0%Z <->
+  (m = None /\ o = ONot) \/ (exists l, m = Some l /\ o = OList l).
+Proof.
+  destruct m as [l|]; destruct o as [|c|l']; cbn [arg_code].
+  - split; [discriminate|]. intros [(H1 & _)|(l0 & _ & H2)]; discriminate.
+  - split; [discriminate|]. intros [(H1 & _)|(l0 & _ & H2)]; discriminate.
+  - split.
+    + destruct (zlist_eqb l l') eqn:E; [|discriminate]. intros _. apply zlist_eqb_eq in E. subst l'.
+      right. exists l. split; reflexivity.
+    + intros [(H1 & _)|(l0 & H1 & H2)]; [discriminate|]. injection H1 as E1. injection H2 as E2. subst.
+      rewrite (proj2 (zlist_eqb_eq _ _) eq_refl). reflexivity.
+  - split; [intros _; left; split; reflexivity|reflexivity].
+  - split; [discriminate|]. intros [(_ & H2)|(l0 & H1 & _)]; discriminate.
+  - split; [discriminate|]. intros [(_ & H2)|(l0 & H1 & _)]; discriminate.
+Qed.
+
+Lemma contents_plain ms : (forall m, In m ms -> plain m) ->
+  length (contents ms) = length ms /\ first_fail ms = None.
+Proof.
+  induction ms as [|m t IH]; intros H; [split; reflexivity|].
+  destruct (H m (or_introl eq_refl)) as (c & ->).
+  destruct IH as (IH1 & IH2); [intros m' Hm'; apply H; right; exact Hm'|].
+  cbn [contents first_fail length]. split; [rewrite IH1; reflexivity|exact IH2].
+Qed.
+
+(* TYPE and LENGTH of what the function of a bundle task receives: when every member is readable and has a
+   content, it is the list of the members' contents, one entry per member -- for every size >= 1 *)
+Lemma bundle_arg_shape c bt : on_content c = true ->
+  let ms := b_members bt in
+  ms <> [] -> (forall m, In m ms -> plain m) ->
+  bundle_content ms = inl (contents ms)
+  /\ length (contents ms) = length ms
+  /\ (forall i d, i < length ms -> nth i ms d = MOk (Some (nth i (contents ms) 0%Z)))
+  /\ btask_result c bt = func_result (b_func bt (contents ms)).
+Proof.
+  intros Hoc ms Hne Hp. destruct (contents_plain ms Hp) as (Hl & Hf).
+  assert (Hc : contents ms <> []).
+  { intros E. rewrite E in Hl. destruct ms; [apply Hne; reflexivity|discriminate]. }
+  assert (Hb : bundle_content ms = inl (contents ms)).
+  { rewrite bundle_content_spec, Hf. destruct (contents ms); [exfalso; apply Hc; reflexivity|reflexivity]. }
+  split; [exact Hb|]. split; [exact Hl|]. split.
+  - clear Hne Hl Hf Hc Hb. induction ms as [|m t IH]; intros i d Hi; [cbn in Hi; lia|].
+    destruct (Hp m (or_introl eq_refl)) as (x & ->). cbn [contents].
+    destruct i as [|i]; [reflexivity|]. cbn [nth]. apply IH.
+    + intros m' Hm'. apply Hp. right. exact Hm'.
+    + cbn [length] in Hi. lia.
+  - unfold btask_result. rewrite Hoc. fold ms. rewrite Hb. reflexivity.
+Qed.
+
+(* the size-1 case: the argument is the one-element list [x], not the bare content x *)
+Lemma bundle_singleton c bt x : on_content c = true -> b_members bt = [MOk (Some x)] ->
+  btask_result c bt = func_result (b_func bt [x])
+  /\ bundle_args [bt] = [Some [x]]
+  /\ (forall o, arg_code (Some [x]) o = 0%Z <-> o = OList [x])
+  /\ arg_code (Some [x]) (OBare x) = 2%Z.
+Proof.
+  intros Hoc Hm. split; [|split; [|split]].
+  - unfold btask_result. rewrite Hoc, Hm. reflexivity.
+  - unfold bundle_args. cbn [map]. rewrite Hm. reflexivity.
+  - intros o. rewrite arg_code_zero. split.
+    + intros [(H & _)|(l & H1 & H2)]; [discriminate|]. injection H1 as <-. exact H2.
+    + intros ->. right. exists [x]. split; reflexivity.
+  - reflexivity.
+Qed.
